@@ -14,19 +14,23 @@ from framework import Case, Violation
 
 ID = 'C02'
 LEAN_MODULE = 'PlasVerif.Properties.C02'
-LEVEL_TEXT = ('Lean 4 theorems over a line-by-line model of expandDef, Definition.invoke, NewCommand.invoke, DefCommand.invoke, the Context definition calls and the expansion loop: '
-              'for EVERY replacement text and argument list substitution is TeX\'s (#n -> n-th argument, ## -> #, nothing else: subst_is_tex); for EVERY parameter text and input on which '
-              'TeX\'s matching is defined and NF-prog 3 holds, undelimited and delimited parameters (incl. multi-token delimiters and brace stripping of a one-group argument) receive exactly '
-              'TeX\'s arguments and leave TeX\'s rest (match_undelimited_is_tex, match_delimited_is_tex, call_step_refines); optional arguments take the default when absent and the bracket '
-              'content when present (optional_default/optional_present); \\let keeps the meaning at the time of \\let under any later redefinition (let_snapshot); \\csname and \\expandafter step theorems. '
-              'Whole-program equality with an independent TeX evaluator written from the TeXbook (Spec.texRun: own tables, own grouping semantics) is stated in Lean and proved for straight-line programs of characters, groups and \\relax; '
-              'for full programs it is carried by the document-level correspondence stream (real interpreter vs model vs TeX evaluator on generated NF-prog programs).')
+LEVEL_TEXT = ('Lean 4 theorems over a line-by-line model of expandDef, Definition.invoke, NewCommand.invoke, DefCommand.invoke, the Context definition calls and the expansion loop '
+              '(TeX.__iter__ with push-back, \\csname, \\expandafter), against an independent TeX evaluator written from TeXbook ch. 20 (Spec/TeXMacro.lean: own matching, own tables, own grouping semantics). '
+              'Proved for all inputs: substitution is TeX\'s (subst_is_tex); for EVERY parameter text (literal prefix, 0-9 parameters, undelimited or delimited by any token sequence) and every input on which '
+              'TeX\'s matching is defined inside NF-prog 3, Definition.invoke collects TeX\'s arguments and leaves TeX\'s rest, including brace stripping of one-group arguments (match_undelimited_is_tex, '
+              'match_delimited_is_tex), hence one macro call = one TeX call (call_step_refines); the same for \\newcommand macros with absent/present optional argument (newcommand_call_refines, optional_default, '
+              'optional_present_is_tex); \\let keeps the meaning at \\let time under any later redefinitions (let_snapshot); \\csname builds the named control sequence and \\expandafter expands the second token '
+              'exactly once, as TeX (csname_builds_name, expandafter_reorders); PROGRAM LEVEL: for every program of the fragment {\\def, \\gdef, calls, groups, \\let, \\relax} and every fuel, whenever the TeX '
+              'evaluator prints v the model prints v (run_eq_texRun_fragment: simulation over frame stack vs saved tables, with fuel monotonicity of the mutual loop). '
+              'Known finding D49 (\\expandafter executes an unexpandable assignment) has a dual-variant model: theorem for the repaired variant, kernel-checked counterexample for the code as is. '
+              'Programs that also use \\newcommand, \\csname, \\expandafter are tied at program level by the document-level correspondence stream (real interpreter vs model vs TeX evaluator on generated NF-prog programs).')
 LEVEL_NOTE = ('Trusted: Lean kernel (axioms propext, Classical.choice, Quot.sound only), the correspondence harness and its program generator, the C01 tokenizer model used to tokenize programs for the Lean side, CPython. '
-              'Not covered: \\edef/\\xdef as true expansion, \\long/\\global prefixes, #{ patterns (the code handles them differently from TeX; outside the stated quantifier), character \\let, \\ifx.')
-TECHNIQUE = 'Lean 4 proofs (induction over replacement text / parameter text / token stream) + independent executable TeX semantics + differential correspondence at component and document level'
+              'Not covered: \\edef/\\xdef as true expansion, \\long/\\global prefixes, #{ patterns (the code handles them differently from TeX; outside the stated quantifier), character \\let, \\ifx; '
+              'the full-language program-level statement run_eq_texRun_statement is stated, not proved.')
+TECHNIQUE = 'Lean 4 proofs (induction over replacement text / parameter text / token stream; simulation with fuel monotonicity) + independent executable TeX semantics + differential correspondence at component and document level'
 TRUSTED = ['Spec/TeXMacro.lean is the independent evaluation (written from TeXbook ch. 20; no TeX engine is installed)',
-           'program-level equality run = texRun is proved only for straight-line programs; the rest is tied by the prog stream']
-ASSUMPTIONS = ['NF-prog of DESIGN.md section 5 (no recursion, no delimiter token inside a delimited argument, no $ in arguments, \\newcommand only on fresh names)',
+           'program-level equality is proved for the fragment {def, gdef, calls, groups, let, relax}; programs with \\newcommand/\\csname/\\expandafter are tied by the prog stream']
+ASSUMPTIONS = ['NF-prog of DESIGN.md section 5 (no recursion, no delimiter token inside a delimited argument, no $ in arguments, \\newcommand only on fresh names, parameter character #)',
                'macro names of generated programs are not predefined by plasTeX (checked at start)']
 RULE = ('seeded generation from the grammar of the quantifier: parameter texts with 0-9 parameters (delimited by 1-2 tokens / undelimited, literal prefix), calls with single-token, braced, '
         'one-group and empty arguments, \\newcommand with and without optional argument, nested calls in bodies and arguments, \\let, \\csname, \\expandafter, groups to depth 5, ~15% malformed; '
@@ -96,7 +100,7 @@ def _setup():
         doc = TeXDocument()
         tex = TeX(doc)
         _env.update(doc=doc, TeX=TeX, T=T, plasTeX=plasTeX, TeXDocument=TeXDocument, pdoc=None, base=None, n=0)
-        for n in NAMES + ALIASES + ['zqm', 'zqend', 'zqsep']:
+        for n in NAMES + ALIASES + ['zqm', 'zqend', 'zqsep', 'zqp', 'zqn']:
             if n in doc.context.keys():
                 raise RuntimeError('generator macro name %s is predefined by plasTeX' % n)
     return _env
@@ -326,8 +330,11 @@ def gen_defparse(rng):
     body = gen_body_words(rng, len(ds), malformed)
     if rng.random() < 0.15:
         # nested definition with doubled hashes in the parameter text (one level is stripped by DefCommand)
-        args = [cw('#'), cw('#'), cw('1')] + args[:0]
-        body = [cw('#'), cw('#'), cw('1'), cw('x')]
+        args = [cw('#'), cw('#'), cw('1')] + ([cw('.'), cw('#'), cw('#'), cw('2')] if rng.random() < 0.3 else [])
+        body = []
+        for _ in range(rng.randint(1, 4)):
+            body += rng.choice([[cw('#'), cw('#'), cw('1')], [cw('x')], [cw('#'), cw('1')], [cw('#'), cw('#'), cw('#'), cw('1')],
+                                [cw('#'), cw('#'), cw('#'), cw('#'), cw('1')], [cw('{'), cw('#'), cw('#'), cw('1'), cw('}')]])
     s = [csw(rng.choice(['zqa', 'zqb']))] + args + [cw('{')] + body + [cw('}')] + gen_plain_words(rng, 2)
     if malformed:
         r = rng.random()
@@ -360,6 +367,8 @@ class ProgGen:
         self.scopes = [set()]     # names defined, per open group
         self.budget = rng.randint(6, 40)
         self.counter = 0
+        self.has_p = False
+        self.inner = set()
 
     # -- helpers
     def defined(self):
@@ -380,7 +389,8 @@ class ProgGen:
             nargs = rng.choice([0, 1, 1, 2, 3])
             opt = None
             if nargs and rng.random() < 0.5:
-                opt = self.word('[]') if rng.random() < 0.8 else ''
+                r = rng.random()
+                opt = self.word('[]') if r < 0.7 else ('{%s}' % self.word('[]') if r < 0.85 else '')      # one-group default: D51
             return Sig('newcmd', '', [''] * (nargs - (1 if opt is not None else 0)), nargs, opt, rank)
         pre = rng.choice(['(', '.', '!']) if rng.random() < 0.12 else ''
         n = rng.choice([0, 0, 1, 1, 1, 2, 2, 3, 9 if rng.random() < 0.3 else 2])
@@ -447,7 +457,11 @@ class ProgGen:
         s = self.sigs[m]
         via = rng.random()
         if 'csname' in self.f and via < 0.12 and not plain_head:
-            head = '\\csname %s\\endcsname ' % m
+            if self.has_p and via < 0.06:
+                # part of the name comes from a parameterless macro that must be expanded inside \csname
+                head = '\\csname z\\zqp %s\\endcsname ' % m[2:]
+            else:
+                head = '\\csname %s\\endcsname ' % m
         else:
             head = '\\%s ' % m
         out = [head + s.pre]
@@ -498,14 +512,18 @@ class ProgGen:
         if r < 0.30 or not dfd:
             return self.definition()
         if r < 0.62:
-            return self.call(rng.choice(sorted(dfd)))
+            m = rng.choice(sorted(dfd))
+            c = self.call(m)
+            if m in self.inner and rng.random() < 0.8:
+                c += '\\zqn ' + rng.choice(['y', '{yz}', '{}'])      # use the macro the call has just defined
+            return c
         if r < 0.72 and depth < 5:
             return self.group(depth)
         if r < 0.78 and 'let' in self.f:
             return self.let()
         if r < 0.84 and 'expandafter' in self.f:
             return self.expandafter()
-        if r < 0.87:
+        if r < 0.87 and 'norelax' not in self.f:
             return '\\relax '
         return self.word() + (' ' if rng.random() < 0.3 else '')
 
@@ -520,6 +538,12 @@ class ProgGen:
             name = rng.choice(sorted(k for k in self.sigs if k in NAMES))
         s = self.sigs[name]
         body = self.body(name, s)
+        if rng.random() < 0.08:
+            # an inner definition with doubled parameter characters (one level of # is removed when the outer macro is called)
+            body += '\\def\\zqn ##1{(%s##1)}' % ('#%d' % rng.randint(1, s.nargs) if s.nargs else 'w')
+            self.inner.add(name)
+        else:
+            self.inner.discard(name)
         if s.kind == 'newcmd':
             cmd = 'renewcommand' if name in self.defined() else 'newcommand'
             star = '*' if rng.random() < 0.15 else ''
@@ -582,6 +606,9 @@ class ProgGen:
 
     def program(self):
         out = []
+        if 'csname' in self.f and self.rng.random() < 0.5:
+            out.append('\\def\\zqp {q}')
+            self.has_p = True
         while self.budget > 0:
             out.append(self.item(0))
         return out
@@ -591,6 +618,10 @@ def gen_prog(rng, malformed=False):
     feats = {'newcommand', 'let', 'csname', 'expandafter'}
     if rng.random() < 0.35:
         feats = set(x for x in feats if rng.random() < 0.5)
+    if malformed:
+        # a truncated call can swallow a following \relax and hand it to a \def: redefining \relax at run time breaks
+        # plasTeX's own number/argument readers (outside the model and outside NF-prog), so malformed programs carry none
+        feats = set(feats) | {'norelax'}
     g = ProgGen(rng, feats)
     items = g.program()
     if malformed:
@@ -609,6 +640,9 @@ def gen_prog(rng, malformed=False):
             ins = rng.choice(['\\expandafter', '\\csname ab', '\\def', '\\let\\zqu', '\\newcommand\\zqa[1]['])
             # a bare \def goes to the end of the program (in front of an item it would redefine a primitive such as \relax or \def)
             items.insert(len(items) if ins in ('\\def', '\\expandafter') else k, ins)    # (\expandafter in front of an unexpandable primitive: known finding D18, only through its witness)
+    if _D49.search(''.join(items)):
+        # a truncation must not create the class of the known finding D49 (\expandafter\x followed by \def, \let, ...)
+        return gen_prog(rng, False)
     return prog_case(items)
 
 
@@ -621,7 +655,7 @@ def generate(ctx):
     rng = ctx.rng
     q = ctx.tier == 'quick'
     n_comp = 5000 if q else 80000
-    n_prog = 2500 if q else 30000
+    n_prog = 5000 if q else 45000
     for _ in range(n_comp):
         yield gen_subst(rng)
     for _ in range(n_comp):
@@ -651,6 +685,10 @@ def corpus():
         P('{\\def\\zqa {x}{\\gdef\\zqa {y}\\zqa }\\zqa }', '\\zqa '),
         # D17: optional argument that is one group
         P('\\def\\zqb #1{[#1]}', '\\newcommand\\zqa [1][d]{\\zqb #1}', '\\zqa [{xy}]', '\\zqa '),
+        # D51: a default that is one group is stored without its braces
+        P('\\def\\zqb #1{[#1]}', '\\newcommand\\zqa [1][{xy}]{\\zqb #1}', '\\zqa ', '\\zqa [p]'),
+        # D50: \expandafter in front of a macro whose expansion is empty
+        P('\\def\\zqa #1{}', '\\def\\zqe #1{[#1]}', '\\expandafter\\zqe \\zqa AB'),
         P('\\def\\zqa #1#2#3#4#5#6#7#8#9{#9#8#7#6#5#4#3#2#1}', '\\zqa 123456789'),
         P('\\def\\zqa #1{\\def\\zqb ##1{#1##1}}', '\\zqa x', '\\zqb y'),
         P('\\def\\zqa {x}', '\\let\\zqu \\zqa ', '\\def\\zqa {y}', '\\zqa \\zqu '),
@@ -722,7 +760,31 @@ def impl(case, aux):
     st = case.stream
     if st == 'prog':
         E['n'] += 1
-        return run_program(''.join(chr(int(x)) for x in case.line.split()[1:]), fresh=(case.origin != 'gen' or E['n'] % 8 == 0))
+        if aux and aux[0] == 'err:fuel' and case.origin == 'gen':
+            # the model predicts a blow-up (only malformed / non-NF programs): give the real interpreter 1 s, not CASE_TIMEOUT
+            from framework import time_limit, CaseTimeout
+            try:
+                with time_limit(1):
+                    return run_program(''.join(chr(int(x)) for x in case.line.split()[1:]), fresh=False)
+            except CaseTimeout:
+                return 'err:timeout'
+        from framework import time_limit, CaseTimeout
+        src = ''.join(chr(int(x)) for x in case.line.split()[1:])
+        try:
+            return run_program(src, fresh=(case.origin != 'gen' or E['n'] % 8 == 0))
+        except CaseTimeout:
+            # a time-out on a program for which the model predicts a normal result is first retried (fresh document,
+            # generous limit): on a loaded machine, or right after a blow-up case has been garbage collected, 4 s can pass
+            if not (aux and aux[0].startswith('ok')) or E.get('retries', 0) >= 5:
+                return 'err:timeout'
+            E['retries'] = E.get('retries', 0) + 1      # at most 5 retries per run: a code change that makes many programs hang must not stall the check
+            import gc
+            gc.collect()
+            try:
+                with time_limit(60):
+                    return run_program(src, fresh=True)
+            except CaseTimeout:
+                return 'err:timeout'
     ws = case.line.split()
     ctx = E['doc'].context
     try:
@@ -762,6 +824,10 @@ _PRIMS = r'(?:relax|def|gdef|edef|xdef|let|csname|endcsname|expandafter|newcomma
 _PRIM_REDEF = _re2.compile(r'\\(?:def|gdef|let|newcommand|renewcommand)\*?\s*\{?\s*\\' + _PRIMS + r'(?![a-zA-Z])|\\let\s*\\[a-zA-Z]+\s*=?\s*\\' + _PRIMS + r'(?![a-zA-Z])')
 
 
+_UNEXP = r'(?:relax|def|gdef|edef|xdef|let|endcsname|newcommand|renewcommand|begingroup|endgroup)'
+_D49 = _re2.compile(r'\\expandafter\s*\\[a-zA-Z]+\s*\\' + _UNEXP + r'(?![a-zA-Z])')
+
+
 def _norm(s):
     return ' '.join(s.split())
 
@@ -773,6 +839,12 @@ def judge(o):
         ie = 'err' if impl_.startswith('err') else impl_
         me = 'err' if model.startswith('err') else model
         o.corr_ok = (ie == me)
+        if not o.corr_ok and o.aux:
+            # dual-variant model (known finding D49): the implementation may follow the repaired variant instead
+            re_ = _norm(o.aux[0])
+            o.corr_ok = (ie == ('err' if re_.startswith('err') else re_))
+            if o.corr_ok:
+                o.note = 'implementation follows the repaired variant of D49'
         o.prop_ok = spec.startswith('-') or impl_ == spec
         if model == 'err:fuel':
             o.corr_ok = True
@@ -804,7 +876,8 @@ def shrink(ctx, o, evaluate):
         for i, it in enumerate(items):
             if it.startswith('{') and it.endswith('}') and len(it) > 2:
                 cands.append(items[:i] + [it[1:-1]] + items[i + 1:])
-        cs = [prog_case(c, 'shrink') for c in cands if c]
+        # never shrink into the class of the known finding D49 (\expandafter in front of an unexpandable primitive)
+        cs = [prog_case(c, 'shrink') for c in cands if c and not _D49.search(''.join(c))]
         for r in evaluate(cs):
             if not r.prop_ok:
                 best, improved = r, True
